@@ -163,6 +163,50 @@ def decodeConsts (more : List Sexp) : List (String × Rat) :=
       | _ => none
     | _ => []
 
+/-! REGRESSION classification of the defect "the bounds of a range iterator are looked up in the whole subtree"
+(`parse_iterator`: `find_first_tagged("to")` / `("range_type")` search the pairs in pre-order, so a range nested in
+the LOWER bound — `sum(i in sum(j in 0..2) { j }..5) { … }` — supplies the upper bound and the inclusiveness). -/
+
+mutual
+/-- upper bound and inclusiveness of the first range iterator met in pre-order -/
+partial def firstRange : PExp → Option (PExp × Bool)
+  | .scoped _ _ its b => (firstRangeIts its).orElse fun _ => firstRange b
+  | .cvar _ as | .access _ as | .call _ as | .block _ as => as.findSome? firstRange
+  | .bin _ l r => (firstRange l).orElse fun _ => firstRange r
+  | .un _ e => firstRange e
+  | _ => none
+partial def firstRangeIts : List PExp → Option (PExp × Bool)
+  | [] => none
+  | .call "range" [a, b, .bool incl] :: rest => ((firstRange a).orElse fun _ => some (b, incl)).orElse fun _ => firstRangeIts rest
+  | e :: rest => (firstRange e).orElse fun _ => firstRangeIts rest
+end
+
+mutual
+/-- the tree as the defective builder reads it -/
+partial def nestedRangeReading : PExp → PExp
+  | .scoped k vs its b => .scoped k vs (its.map nestedRangeIter) (nestedRangeReading b)
+  | .cvar n as => .cvar n (as.map nestedRangeReading)
+  | .access n as => .access n (as.map nestedRangeReading)
+  | .call n as => .call n (as.map nestedRangeReading)
+  | .block n as => .block n (as.map nestedRangeReading)
+  | .bin o l r => .bin o (nestedRangeReading l) (nestedRangeReading r)
+  | .un o e => .un o (nestedRangeReading e)
+  | e => e
+partial def nestedRangeIter : PExp → PExp
+  | .call "range" [a, b, .bool incl] =>
+    match firstRange a with
+    | some (b', incl') => .call "range" [nestedRangeReading a, nestedRangeReading b', .bool incl']
+    | none => .call "range" [nestedRangeReading a, nestedRangeReading b, .bool incl]
+  | e => nestedRangeReading e
+end
+
+def isNestedRangeDefect (toks : List Tok) (ie : Option Ref.E) : Bool :=
+  match parseToks toks, ie with
+  | .ok t, some i =>
+    let r := nestedRangeReading t
+    Ref.canon (Ref.ofPExp r) != Ref.canon (Ref.ofPExp t) && Ref.canon (Ref.ofPExp r) == Ref.canon i
+  | _, _ => false
+
 def oracle : List Sexp → Sexp
   | .atom "check" :: .str s :: impl :: more =>
     match lex s.toList with
@@ -174,6 +218,7 @@ def oracle : List Sexp → Sexp
         let consts := decodeConsts more
         let v := judge toks ie consts
         if v.isOk then report s v
+        else if isNestedRangeDefect toks ie then app "violation" [.atom "range-bound-read-from-nested-range", .str s]
         else
           match more.find? (fun | .list (.atom "twin" :: _) => true | _ => false) with
           | some (.list [.atom "twin", .str s2, impl2]) =>
